@@ -1015,18 +1015,25 @@ func handleState(fr *FrameHeader, strm *Stream) {
 		strm.SetState(StreamStateClosed)
 	}
 
+	// END_STREAM is bit 0x1 of DATA and HEADERS frames only. On any other type
+	// the bit is undefined and has to be ignored (RFC 7540 4.1): a
+	// WINDOW_UPDATE, PRIORITY or CONTINUATION frame carrying it used to
+	// half-close the stream and dispatch the request early.
+	endStream := fr.Flags().Has(FlagEndStream) &&
+		(fr.Type() == FrameData || fr.Type() == FrameHeaders)
+
 	switch strm.State() {
 	case StreamStateIdle:
 		if fr.Type() == FrameHeaders {
 			strm.SetState(StreamStateOpen)
-			if fr.Flags().Has(FlagEndStream) {
+			if endStream {
 				strm.SetState(StreamStateHalfClosed)
 			}
 		} // TODO: else push promise ...
 	case StreamStateReserved:
 		// TODO: ...
 	case StreamStateOpen:
-		if fr.Flags().Has(FlagEndStream) {
+		if endStream {
 			strm.SetState(StreamStateHalfClosed)
 		} else if fr.Type() == FrameResetStream {
 			strm.SetState(StreamStateClosed)
